@@ -17,7 +17,8 @@ EXPLANATION = ("load_dump / rows_preserved / dup_involutive / cancel_preserves p
                "forms are compared with sympy's str() for every template the simplifier can emit (source expressions "
                "re-evaluated), its load with the real load_subs on 1-5 ranks, its cancellation with the real "
                "simplify_inv_subs on all chains up to the bound; an independent oracle checks the property itself on the "
-               "real outputs (objects equal, rows aligned, composition numerically unchanged)")
+               "real outputs (objects equal, rows aligned, composition numerically unchanged), including the chains [d, d] and "
+               "[d, d, d] for every element d of the real get_all_dup(k), k <= 5 (a non-involutive element is a failing input)")
 TRUSTED = ["hand model ESRVerif/Model/Subs.lean of sympy's str() and sympify on the template language (tied by exhaustive "
            "correspondence for 4 parameters, |n| <= 6, rationals with denominator <= 4)",
            "ast.literal_eval and csv reader/writer modelled on the emitted language only (dict of single-quoted strings; "
@@ -25,12 +26,30 @@ TRUSTED = ["hand model ESRVerif/Model/Subs.lean of sympy's str() and sympify on 
            "the `keep` branches of the pair block of sympy_simplify (str({expr[0]: ...})) are unreachable: keep is False "
            "whenever v is not None (read, not extracted)",
            "sympy Float prints 15 significant digits: the two 1/3 templates are read back with an exponent differing by "
-           "3e-16 (checked numerically equal, not structurally)"]
+           "3e-16 (checked numerically equal, not structurally)",
+           "translator normalisations (harness/extractors/_norm_c17.py N1-N10, applied to get_all_dup and load_subs before they "
+           "are read): one level of inlining of straight-line private/nested helpers; chained and independent tuple "
+           "assignment split; conditional expression <-> if/else; rest-of-block after `if c: ...; continue/return` moved into "
+           "else, tail `continue` dropped, empty-body if inverted; not/==/!=/in/is and De Morgan in test position; adjacent "
+           "ifs with one call-free test merged; loops over a literal tuple of constants unrolled; appending loop <-> list "
+           "comprehension; single-use pure temporaries inlined into the next statement",
+           "translator's symbolic reading of get_all_dup: locals are followed by value, not by name (parameter names list, "
+           "sympy symbols, index range ascending/descending through range / np.arange / np.flip / [::-1] / reversed / "
+           "sorted(reverse=) / list / tuple, 2-combinations of the descending indices, the list under construction through "
+           "= / += / + / extend / append loops; pair variable `c[0], c[1]` or unpacked `p, q`; 'a%i' % i == f'a{i}' == "
+           "'a' + str(i) for the ints of a range); anything else is an ExtractError",
+           "translator's symbolic reading of load_subs' per-cell statements: the cell text is followed through `.replace` "
+           "chains on the cell or on locals (row alias, enumerate, unrolled literal pairs), the nan test and literal_eval "
+           "must be applied to the same fully quoted text, keys are sympified before values, `str == literal` is read as "
+           "symmetric; the read / split / scatter / gather / chain / bcast statements are matched up to renaming of locals"]
 ASSUMPTIONS = ["real/rational semantics: -(-x)=x and 1/(1/x)=x for x != 0 (floating-point rounding not modelled)",
                "ranks are OS processes under the stand-in hub (pickle on every collective), not a real MPI progress engine"]
 # tables whose committed version may stand in as a hand-written model when the translator cannot read the source;
 # value = the correspondence that then ties it to the code (common.prove / common.decide)
-FALLBACK = {'Subs': 'get_all_dup, the str() of every template, load_subs and simplify_inv_subs (all chains) vs the Lean models'}
+FALLBACK = {'Subs': 'model executable vs real code on what the table claims: get_all_dup(k) for k = 0..5 list-equal to allDup k; real load_subs on '
+                    '1-5 (deep: 8) ranks cell-for-cell equal to loadFile (replace sequence, nan literal, delimiter, rank blocks); real '
+                    'simplify_inv_subs on all chains up to the bound; plus the oracle that every element of the real get_all_dup cancels '
+                    'soundly.  NOT covered by a dynamic tie and therefore kept strict: the template table of sympy_simplify'}
 MODELLED = ["simplifier.py:get_all_dup", "simplifier.py:simplify_inv_subs", "simplifier.py:load_subs",
             "simplifier.py:convert_params"]
 
@@ -61,7 +80,12 @@ def build_recordable(ctx, k=K, nmax=NMAX):
     import sympy, numpy as np
     import esr.generation.simplifier as S
     from extractors import subs as xs
-    tmpl, kinds = xs.template_sources(ctx.stage)
+    try:
+        tmpl, kinds = xs.template_sources(ctx.stage)
+    except extract.ExtractError as e:
+        # keep exploring with the committed template table; the obligation stays broken (no dynamic tie for it)
+        ctx.disagree("extract:Subs(templates)", str(e))
+        tmpl, kinds = xs.baseline_templates()
     all_a = _symbols(k)
     ints = [sympy.Integer(n) for n in range(-nmax, nmax + 1)]
     rats = [sympy.Rational(p, q) for q in (2, 3, 4) for p in range(-nmax, nmax + 1) if p != 0 and math.gcd(abs(p), q) == 1]
@@ -511,6 +535,37 @@ def cancel_oracle(comp, chain, after, thetas, symbolic=False):
     return None
 
 
+def _oracle_dups(ctx, dups):
+    """the property on the shortest chains there are: every element d of the REAL get_all_dup(k) is cancelled when it is
+    repeated, so [d, d] (and [d, d, d]) must compose to the same map after the real simplify_inv_subs as before."""
+    import esr.generation.simplifier as S
+    st = dict(elements=0, chains=0, unreadable=0)
+    for k, dup in sorted(dups.items()):
+        if k == 0 or not dup:
+            continue
+        uniq = sorted(set(dup))
+        if len(uniq) > 600:
+            uniq = sorted(ctx.rng.sample(uniq, 600))
+        try:
+            comp = Composer(k, uniq)
+        except Exception as e:
+            st["unreadable"] += 1
+            ctx.disagree("oracle:all_dup", "get_all_dup(%d) has an element the independent reader cannot parse: %r" % (k, e))
+            continue
+        thetas = [[ctx.rng.choice((-1, 1)) * ctx.rng.uniform(0.5, 2.0) for _ in range(k)] for _ in range(3)]
+        for d in uniq:
+            st["elements"] += 1
+            for chain in ([d, d], [d, d, d]):
+                after = S.simplify_inv_subs(list(chain), list(dup))
+                st["chains"] += 1
+                ctx.case(("cancel", k, tuple(chain)), nontrivial=True)
+                why = cancel_oracle(comp, chain, after, thetas)
+                if why:
+                    ctx.fail("simplify_inv_subs:k=%d:%s" % (k, ";".join(chain)),
+                             "chain %r cancelled to %r: %s" % (chain, after, why), dict(kind="cancel", k=k, chain=chain))
+    return st
+
+
 def canon_chain(res):
     if res is None:
         return "None"
@@ -524,7 +579,7 @@ def _corr_cancel(ctx, rec, deep):
     nondup_pool = {}
     for kind, fam, j, p, q, obj, s in rec:
         nondup_pool.setdefault(j if kind in ("template", "neg") else -1, []).append(s)
-    plans = [(1, 5 if not deep else 7, 3), (2, 4 if not deep else 5, 3), (3, 3, 2)]
+    plans = [(1, 5 if not deep else 7, 3), (2, 4 if not deep else 5, 3), (3, 3, 2), (4, 2, 2)]
     if deep:
         plans.append((2, 6, 1))
     stats = dict(chains=0, changed=0, with_nan=0, bad=0, symbolic=0, convert_params_checked=0)
@@ -620,13 +675,18 @@ def run(ctx):
     deep = (not ctx.quick) or bool(drift)
     ctx.extra["source_drift"] = drift
     ex = ctx.proof.get("extract", {})
-    if ex.get("errors", {}).get("Subs"):
-        ctx.disagree("extract:Subs", ex["errors"]["Subs"])
+    err = ex.get("errors", {}).get("Subs")
+    fb = (ctx.proof or {}).get("fallback") or {}
+    if err and ("Subs" not in fb or err.startswith("sympy_simplify:")):
+        # the template table of sympy_simplify has no dynamic tie (nothing here observes what the simplifier records), so
+        # an unreadable sympy_simplify stays strict; get_all_dup / load_subs fall back on the correspondences below
+        ctx.disagree("extract:Subs", err)
     rec, all_a = build_recordable(ctx)
     unknown = sorted(set(r[6] for r in rec if r[1] == "unknown"))
     if unknown:
         ctx.disagree("corr:templates", "templates outside the modelled families: %r" % unknown[:5])
     a, dups = _corr_print(ctx, rec, all_a)
+    ctx.extra["all_dup_oracle"] = _oracle_dups(ctx, dups)
     b = _corr_load(ctx, rec, all_a, deep)
     c = _corr_cancel(ctx, rec, deep)
     ctx.extra["corr_obligations"] = 5
